@@ -87,6 +87,45 @@ fn perr(e: routinator::utils::binio::ParseError) -> (&'static str, String) {
 }
 
 /// The real decoder.
+/// A reader that hands out the bytes in pieces (`Read::read` may return less than asked for: a `BufReader` at the end of
+/// its buffer, a pipe): the piece sizes cycle through `pieces`.
+pub struct Pieces<'a> { data: &'a [u8], pos: usize, pieces: &'a [usize], turn: usize }
+
+impl<'a> Pieces<'a> {
+    pub fn new(data: &'a [u8], pieces: &'a [usize]) -> Self { Pieces { data, pos: 0, pieces, turn: 0 } }
+}
+
+impl std::io::Read for Pieces<'_> {
+    fn read(&mut self, buf: &mut [u8]) -> std::io::Result<usize> {
+        let n = self.pieces[self.turn % self.pieces.len()].min(buf.len()).min(self.data.len() - self.pos);
+        self.turn += 1;
+        buf[..n].copy_from_slice(&self.data[self.pos..self.pos + n]);
+        self.pos += n;
+        Ok(n)
+    }
+}
+
+/// `read` through a reader handing out the input in pieces.
+pub fn read_in_pieces(rec: &str, inp: &[u8], pieces: &[usize]) -> Decoded {
+    let mut r = Pieces::new(inp, pieces);
+    let res: Result<Option<Real>, (&'static str, String)> = match rec {
+        "StoredStatus" => StoredStatus::read(&mut r).map(|x| Some(Real::Status(x))).map_err(perr),
+        "StoredPointHeader" => StoredPointHeader::read(&mut r).map(|x| Some(Real::Header(x))).map_err(perr),
+        "StoredManifest" => StoredManifest::read(&mut r).map(|x| Some(Real::Manifest(x))).map_err(perr),
+        "StoredObject" => StoredObject::read(&mut r).map(|x| x.map(Real::Object)).map_err(perr),
+        "RepositoryState" => RepositoryState::verif_parse(&mut r).map(|x| Some(Real::State(x))).map_err(|e| {
+            (if e.kind() == std::io::ErrorKind::UnexpectedEof { "eof" } else { "format" }, e.to_string())
+        }),
+        _ => panic!("unknown record type {rec}"),
+    };
+    let consumed = r.pos;
+    match res {
+        Ok(Some(v)) => Decoded { outcome: "value", consumed, value: Some(v), detail: String::new() },
+        Ok(None) => Decoded { outcome: "end", consumed, value: None, detail: String::new() },
+        Err((o, d)) => Decoded { outcome: o, consumed, value: None, detail: d },
+    }
+}
+
 pub fn read(rec: &str, inp: &[u8]) -> Decoded {
     let mut r: &[u8] = inp;
     let res: Result<Option<Real>, (&'static str, String)> = match rec {
